@@ -238,6 +238,41 @@ def run(ctx):
                         'snapshot still lists the object panics when it opens its scan')
     ctx.floor(R6, n_rm, 1, 'removals from the version manager object pools')
 
+    R7 = 'C08-R7'
+    ctx.rule(R7, 'a transaction reads what it pinned: everything scan_inner learns about the table (row-set list, delete vectors) comes from '
+                 'its own pinned snapshot; the version manager functions it calls only look objects up in the pools (rowsets, dvs) and '
+                 'never read `status` / `epoch`, i.e. some other epoch\'s snapshot')
+    SCAN = SEC + 'transaction::SecondaryTransaction::scan_inner::{closure#0}'
+    sb = prog.body(SCAN)
+    if ctx.anchor(R7, SCAN, sb is not None):
+        seen, todo = set(), [sb.root]
+        depth = {sb.root: 0}
+        offenders = []
+        while todo:
+            r = todo.pop()
+            if r in seen:
+                continue
+            seen.add(r)
+            for g in prog.group(r):
+                flds = {f for p in _places(g) for f in pl_fields(p) if f in (INNER + '::status', INNER + '::epoch')}
+                if flds and r != sb.root:
+                    offenders.append((g, sorted(flds)))
+                if depth[r] < 2:
+                    for c in g.calls:
+                        for n in prog.callee_bodies(c):
+                            rr = prog.bodies[n].root
+                            if rr.startswith(SEC + 'version_manager::') and rr not in depth:
+                                depth[rr] = depth[r] + 1
+                                todo.append(rr)
+        ctx.functions_analysed.update(seen)
+        ctx.ob(R7, 'scan_inner·reads-only-its-pinned-snapshot', not offenders,
+               f'version manager functions reachable from scan_inner: {sorted(x.rsplit("::", 1)[-1] for x in seen if x != sb.root)}; '
+               f'reading status/epoch: {[(g.name.rsplit("::", 1)[-1], f) for g, f in offenders]}',
+               [g.loc for g, _ in offenders] or [sb.loc],
+               what='a scan resolves part of its table state through the CURRENT snapshot of the version manager instead of the one it '
+                    'pinned: a DELETE / compaction / DROP that commits between the pin and the scan changes what the reader sees')
+        ctx.floor(R7, len(seen), 2, 'functions examined from scan_inner')
+
 
 def _places(body):
     from mir import operand_places
